@@ -394,6 +394,7 @@ def _check_server(case):
     out = []
     server = None
     clients = []
+    raws = []
     deadline = time.time() + 5.0
     fake = FakeSleep(budget=1500)
     real_sleep = time.sleep
@@ -402,13 +403,21 @@ def _check_server(case):
         real_sleep(0.0005)
     try:
         try:
-            server = PortServer('127.0.0.1', 0)
-            portno = server._socket.getsockname()[1]
+            want_port = 0
+            if case.get('fixed_port'):
+                # the server listens where it was told to: a port number found free a moment ago
+                probe = socket.socket(socket.AF_INET, socket.SOCK_STREAM)
+                probe.bind(('127.0.0.1', 0))
+                want_port = probe.getsockname()[1]
+                probe.close()
+            server = PortServer('127.0.0.1', want_port)
+            host, portno = server._socket.getsockname()[:2]
+            if want_port and (host, portno) != ('127.0.0.1', want_port):
+                return [fail('server-address', f'PortServer("127.0.0.1", {want_port}) listens on {(host, portno)}')], 'ok'
         except OSError as exc:
             return [], f'skipped: cannot bind loop-back ({exc})'
         total = 0
         got = []
-        raws = []
         if case.get('oob'):
             # a client that is not mido: it sends one byte of TCP urgent (out-of-band) data and then just stays
             # connected. Nothing has arrived IN the stream, so the server must neither deliver anything nor wait for it.
@@ -645,6 +654,7 @@ def server_cases(tier):
                                 {'msgs': notes(2, 1) + [{'type': 'sysex', 'data': list(range(40)), 'time': 0}]}]})
     out += [dict(c, late_send=True) for c in out]
     out += [dict(c, oob=True) for c in out if len(c['clients']) == 2]
+    out += [dict(c, fixed_port=True) for c in out[:3]]
     return out
 
 
